@@ -278,6 +278,7 @@ Rec observe(Objs& o, sem::SchemaAuditor& schemaForCst, Input& in, Env& env, cons
     if (in.convert) {
       r.add("generator.convert.math", rl::ConvertTo(text, rl::Syntax::MATH));
       r.add("generator.convert.ascii", rl::ConvertTo(text, rl::Syntax::ASCII));
+      r.add("generator.convert.undef", rl::ConvertTo(text, rl::Syntax::UNDEF));  // a legal target value: whatever it means, it means the same every time
     }
   }
   // ---- Auditor
